@@ -12,22 +12,18 @@ eigendecomposition of `MultiVariateNormalDistribution::update` — a run takes a
 `sampler` producing the offspring (search points and chromosomes) and an `eig`
 function giving the eigenvector matrix and the last eigenvalue.
 -/
-import SharkVerif.Model.OptScalar
+import SharkVerif.Model.CMAFns
+import SharkVerif.Gen.CMAParams
 namespace SharkVerif.Opt.CMA
-open SharkVerif.Opt
+open SharkVerif.Opt SharkVerif.Gen.CMAParams
 
 variable {α : Type} [Scalar α]
 
-def ofNat (n : Nat) : α := Scalar.ofRat (n : Rat)
+/-! ## doInit coefficients
 
-/-- libm functions used by the C++ -/
-structure Fns (α : Type) where
-  log : α → α
-  sqrt : α → α
-  exp : α → α
-  pow : α → α → α
-
-/-! ## doInit coefficients -/
+The formulas themselves are *regenerated from the C++* on every run
+(`Gen/CMAParams.lean`, translator `translate/cma_params.py`); this section only
+assembles them in the order of `CMA::doInit`. -/
 
 structure Coeffs (α : Type) where
   weights : Vec α
@@ -40,37 +36,26 @@ structure Coeffs (α : Type) where
 
 def sum (v : Vec α) : α := v.foldl (· + ·) Scalar.zero
 
-/-- un-normalised recombination weights: 0 EQUAL, 1 LINEAR, 2 SUPERLINEAR -/
+/-- un-normalised recombination weights (generated formula per rank): 0 EQUAL, 1 LINEAR, 2 SUPERLINEAR -/
 def rawWeights (F : Fns α) (recomb mu : Nat) : Vec α :=
-  (List.range mu).map fun i =>
-    match recomb with
-    | 0 => Scalar.one
-    | 1 => ofNat (mu - i)
-    | _ => F.log (ofNat mu + Scalar.half) - F.log (Scalar.one + ofNat i)
+  (List.range mu).map fun i => cma_rawWeight F recomb mu i
 
+/-- `m_weights /= sum(m_weights)` -/
 def normalise (w : Vec α) : Vec α := let s := sum w; w.map (· / s)
 
-/-- the coefficient formulas of `CMA::doInit` (eq. 45–49 of the tutorial), operation order of the C++ -/
+/-- `sum(sqr(m_weights))` -/
+def sumSq (w : Vec α) : α := sum (w.map fun x => x * x)
+
+/-- the coefficients of `CMA::doInit` (eq. 45–49 of the tutorial) from the generated formulas -/
 def coeffsOf (F : Fns α) (n : Nat) (w : Vec α) : Coeffs α :=
-  let one : α := Scalar.one
-  let two : α := Scalar.two
-  let nn : α := ofNat n
-  let muEff := one / sum (w.map fun x => x * x)
-  let cSigma := (muEff + two) / (nn + muEff + ofNat 3)
-  let dSigma := one + two * Scalar.max Scalar.zero (F.sqrt ((muEff - one) / (nn + one)) - one) + cSigma
-  let cC := (ofNat 4 + muEff / nn) / (nn + ofNat 4 + two * muEff / nn)
-  let n13 := nn + Scalar.ofRat (13/10)
-  let c1 := two / (n13 * n13 + muEff)
-  let n2 : α := ofNat ((n + 2) * (n + 2))
-  let cMu := Scalar.min (one - c1)
-    (two * (Scalar.ofRat (3/10) + muEff - two + one / muEff) / (n2 + two * muEff / two))
-  { weights := w, muEff := muEff, cSigma := cSigma, dSigma := dSigma, cC := cC, c1 := c1, cMu := cMu }
+  let k := cma_consts F n (sumSq w)
+  { weights := w, muEff := k.muEff, cSigma := k.cSigma, dSigma := k.dSigma, cC := k.cC, c1 := k.c1, cMu := k.cMu }
 
 def doInitCoeffs (F : Fns α) (n mu recomb : Nat) : Coeffs α :=
   coeffsOf F n (normalise (rawWeights F recomb mu))
 
-/-- `CMA::suggestMu` -/
-def suggestMu (lambda recomb : Nat) : Nat := if recomb = 0 then lambda / 4 else lambda / 2
+/-- `CMA::suggestMu` (generated) -/
+def suggestMu (lambda recomb : Nat) : Nat := cma_suggestMu lambda recomb
 
 /-! ## selection -/
 
